@@ -111,7 +111,7 @@ theorem manifestPut_order (p : Pre) (k : Contents) (mhad mAlgDir subj rhad rAlgD
       rw [e] at hb; cases hb; exact absurd hl hinit
     · exact absurd hm (ensureRepo_no_rm p 0 k _)
   have hsplit : manifestPut p k mhad mAlgDir ma mh subj rhad rAlgDir ra rh =
-      ensureRepo p 0 k ++ ((if mhad then [] else blobPush p.r p.U mAlgDir 1 ma mh k.body) ++
+      ensureRepo p 0 k ++ ((if mhad then [Step.touch p.r ma mh] else blobPush p.r p.U mAlgDir 1 ma mh k.body) ++
         (convSave p true 2 k ++ [Step.isave p.r 3 k.index1] ++
           (if subj then respSave p k (p.U || !mhad) rhad (rAlgDir || (!mhad && ma == ra)) 4 5 ra rh k.index2 else []))) := by
     simp [manifestPut, List.append_assoc]
@@ -130,15 +130,17 @@ theorem manifestPut_order (p : Pre) (k : Contents) (mhad mAlgDir subj rhad rAlgD
         rcases blobPush_crash _ _ _ _ _ _ _ h3 with ha | ha
         · rw [ha _ rfl] at hb ⊢; exact hd1.1 b hb hl
         · rw [ha _ rfl]; simp
-      · simp at h3
-        have := crash_nil_inv h3; subst this
-        exact hd1.1 b hb hl
+      · simp only [if_true] at h3
+        have hag : ∀ q : Path, q.isTemp = false → c q = d1 q :=
+          fun q hq => crash_frame _ h3 q hq (by rw [touches_iff]; simp [Step.target])
+        rw [hag _ rfl] at hb ⊢; exact hd1.1 b hb hl
     · -- after it: the blob is complete and nothing later touches it
-      have hd2 : runSteps (if mhad then [] else blobPush p.r p.U mAlgDir 1 ma mh k.body) d1 (.blob p.r ma mh) = some k.body := by
+      have hd2 : runSteps (if mhad then [Step.touch p.r ma mh] else blobPush p.r p.U mAlgDir 1 ma mh k.body) d1 (.blob p.r ma mh) = some k.body := by
         cases mhad
         · simp only [Bool.false_eq_true, if_false]
           rw [blobPush_run _ _ _ _ _ _ _ _ _ rfl]; simp
-        · simp; rw [hd1.2]; exact hhad rfl
+        · simp only [if_true]
+          rw [runSteps_frame _ _ _ rfl (by rw [touches_iff]; simp [Step.target]), hd1.2]; exact hhad rfl
       rw [crash_frame _ h4 _ rfl (tail_blob p k true subj _ rhad _ ra rh ma mh hresp)]
       exact hd2
 
@@ -210,7 +212,7 @@ theorem manifestPut_touches (p : Pre) (k : Contents) (mhad mAlgDir subj rhad rAl
     (h : touches (manifestPut p k mhad mAlgDir ma mh subj rhad rAlgDir ra rh) q) :
     q = .layout p.r ∨ q = .index p.r ∨ q = .blob p.r ma mh ∨ q = .blob p.r ra rh := by
   have hsplit : manifestPut p k mhad mAlgDir ma mh subj rhad rAlgDir ra rh =
-      ensureRepo p 0 k ++ ((if mhad then [] else blobPush p.r p.U mAlgDir 1 ma mh k.body) ++
+      ensureRepo p 0 k ++ ((if mhad then [Step.touch p.r ma mh] else blobPush p.r p.U mAlgDir 1 ma mh k.body) ++
         (convSave p true 2 k ++ [Step.isave p.r 3 k.index1] ++
           (if subj then respSave p k (p.U || !mhad) rhad (rAlgDir || (!mhad && ma == ra)) 4 5 ra rh k.index2 else []))) := by
     simp [manifestPut, List.append_assoc]
@@ -227,25 +229,18 @@ theorem manifestPut_touches (p : Pre) (k : Contents) (mhad mAlgDir subj rhad rAl
   · cases mhad
     · simp only [Bool.false_eq_true, if_false] at h
       exact Or.inr (Or.inr (Or.inl (blobPush_touches _ _ _ _ _ _ _ _ h)))
-    · simp at h; exact absurd h touches_nil
+    · rw [touches_iff] at h; simp [Step.target] at h
   rcases touches_append h with h | h
   · rcases touches_append h with h | h
-    · rw [touches_iff] at h
-      unfold convSave at h
-      split at h <;> simp [Step.target] at h
-      exact Or.inr (Or.inl h)
+    · exact Or.inr (Or.inl (convSave_touches _ _ _ _ _ h))
     · have := touches_singleton h; simp [Step.target] at this
       exact Or.inr (Or.inl this.symm)
   · cases subj
     · simp at h; exact absurd h touches_nil
-    · simp only [if_true, respSave] at h
-      rcases touches_append h with h | h
-      · cases rhad
-        · simp only [Bool.false_eq_true, if_false] at h
-          exact Or.inr (Or.inr (Or.inr (blobPush_touches _ _ _ _ _ _ _ _ h)))
-        · simp at h; exact absurd h touches_nil
-      · have := touches_singleton h; simp [Step.target] at this
-        exact Or.inr (Or.inl this.symm)
+    · simp only [if_true] at h
+      rcases respSave_touches _ _ _ _ _ _ _ _ _ _ _ h with e | e
+      · exact Or.inr (Or.inr (Or.inr e))
+      · exact Or.inr (Or.inl e)
 
 example : ¬ touches (manifestPut { r := 0 } {} false true 0 6 true false true 0 7) (.blob 0 0 5) := by
   intro h
@@ -305,7 +300,7 @@ theorem request_atomic {α : Type} (pre : List Step) (r n : Nat) (b : Bytes) (d 
 /-- `request_atomic` applies to a manifest `PUT` without a subject as the model builds it (existing repository) -/
 example (p : Pre) (k : Contents) (mhad mAlgDir : Bool) (ma mh : Nat) (hm : p.mex = true) :
     manifestPut p k mhad mAlgDir ma mh false false false 0 0 =
-      ((if mhad then [] else blobPush p.r p.U mAlgDir 1 ma mh k.body) ++ convSave p true 2 k) ++ [Step.isave p.r 3 k.index1] := by
+      ((if mhad then [Step.touch p.r ma mh] else blobPush p.r p.U mAlgDir 1 ma mh k.body) ++ convSave p true 2 k) ++ [Step.isave p.r 3 k.index1] := by
   simp [manifestPut, ensureRepo, hm]
 
 /-- **Manifest with a subject: what can be proved** (`_partial`: the statement "before or after" is *false* for this
